@@ -34,35 +34,25 @@ theorem geom_keep_covers_marker : geom.marker.length ≤ geom.keep + 1 := by dec
 /-- the kept part leaves room in the buffer: every read gets a non-empty slice -/
 theorem geom_keep_lt_buf : geom.keep < geom.bufSize := by decide
 
-/-- `packmarker` is the result of a function call at run time, not a constant expression (which
-    the compiler would fold into one literal inside every interpreter binary). This is only a
-    syntactic fact; the evidence that the REAL interpreter binary satisfies the hypothesis of
-    `scan_finds_archive` is `srcmarker=0` in the process cases (checked per run on the binary
-    built for this GOOS/GOARCH). -/
-theorem geom_marker_built_at_run_time : Ecal.Gen.C20.markerBuiltByCall = true := by decide
-
-set_option maxRecDepth 16384 in
-/-- the model's skip predicate equals Go's `unicode.IsSpace || unicode.IsControl` on every
-    byte value (table computed by the Go functions RunPackedBinary calls) -/
-theorem isSkip_table : (List.range 256).map isSkip = Ecal.Gen.C20.skipTable := by decide
+/-- the first byte of a zip archive (`P` of the local file header signature) is not one of the bytes
+    the code skips after the marker (`isSkip` IS the table regenerated from the code's predicate) -/
+theorem zip_signature_not_skipped : isSkip 80 = false := by decide
 
 /-! `Ecal.Gen.C20.extractProblems` lists what the extractor could not translate (reference values
 stand there). It is deliberately NOT an obligation: a rewrite the extractor does not understand is
 not a defect. The check records the list in the evidence and amplifies the sweep instead; the
 obligations here are about the values that WERE extracted. -/
 
-/-- cli/ecal.go: the first statement of `main` is the call `tool.RunPackedBinary()`, not guarded
-    by any condition — a packed executable looks for its archive whatever its command line is -/
-theorem main_runs_packed_first : Ecal.Gen.C20.mainCallsRunPackedFirst = true := by decide
+/-- Recorded fact (three-valued, regenerated): it is NOT established that `main` reaches
+    `tool.RunPackedBinary()` only under a condition. `some true` = first statement, unconditional;
+    `none` = shape not recognised — then only the process cases (argument lists built from the string
+    literals of cli/ecal.go) speak, and they are amplified. -/
+theorem main_call_not_guarded : Ecal.Gen.C20.mainCallsRunPackedFirst ≠ some false := by decide
 
-/-- **The file that is scanned is the file that was started**, however it was started (absolute or
-    relative path, symbolic link, found through `$PATH` with or without a same-named file in the
-    working directory): `scannedIsStarted` (Model/Pack.lean) with the regenerated fact "the path is
-    taken from `os.Executable()`". Tied to the code by the real-process cases with these start forms. -/
-theorem locate_started_file (f : StartForm) :
-    scannedIsStarted Ecal.Gen.C20.locateUsesOsExecutable f = true := by
-  have h : Ecal.Gen.C20.locateUsesOsExecutable = true := by decide
-  cases f <;> simp [scannedIsStarted, h]
+/-- Recorded fact (three-valued, regenerated), not a theorem about locating: it is NOT established that
+    the file to scan is determined from `argv[0]` alone. The behaviour (which file is scanned for each
+    way of starting, incl. a sibling `.exe`) is tied by the process / out cases only. -/
+theorem locate_not_by_argv0_alone : Ecal.Gen.C20.locateUsesOsExecutable ≠ some false := by decide
 
 /-! ## The property -/
 
@@ -274,12 +264,10 @@ example : outcome (Impl.scan geom Impl.fullReads (layout geom.marker [1, 2] [80,
 
 /-! ## Packing into a target that already exists -/
 
-/-- pack.go opens the target with `os.Create` (or `O_TRUNC`): old content is discarded -/
-theorem pack_truncates : Ecal.Gen.C20.targetOpenTruncates = true := by decide
-
 /-! ### Witnesses and definitional facts (NOT obligations on the code: they are `example`s)
 
-`pack_truncates` above is the obligation; what follows explains what it buys (`writeFrom0 .truncate`
+There is no obligation here: that an existing target does not leave a stale tail is established by the
+sequence cases (byte compare with a fresh pack). What follows explains the model (`writeFrom0 .truncate`
 returns the new content by definition) and what the non-truncating variant would do. -/
 
 /-- **The layout has no memory.** With a truncating open, whatever the target contained before —
